@@ -1,7 +1,7 @@
 #!/usr/bin/env python3
 """Must-fail corpus: apply each patch to a scratch copy of /repo (outside /repo and /verif), run the
 property's check against it and expect the named obligation to be reported as a VIOLATION.
-usage: selftest/run.py [-j N] [case-substring | property]"""
+usage: selftest/run.py [-j N] [-from INDEX] [case-substring | property]"""
 import json, os, subprocess, sys, tempfile, shutil
 from concurrent.futures import ThreadPoolExecutor
 
@@ -11,6 +11,10 @@ args = sys.argv[1:]
 par = 1
 if args and args[0] == "-j":
     par = int(args[1])
+    args = args[2:]
+start = 0
+if args and args[0] == "-from":
+    start = int(args[1])
     args = args[2:]
 flt = args[0] if args else ""
 
@@ -43,7 +47,7 @@ def run_case(c):
         shutil.rmtree(tmp, ignore_errors=True)
 
 
-todo = [c for c in cases if not flt or flt in c["patch"] or flt == c["property"]]
+todo = [c for c in cases[start:] if not flt or flt in c["patch"] or flt == c["property"]]
 bad = 0
 with ThreadPoolExecutor(max_workers=par) as ex:
     for ok, msg in ex.map(run_case, todo):
